@@ -109,6 +109,30 @@ def ob_sig(k, prefix, lens, pytype='bytes', acc='default', second=None):
     return res
 
 
+def ob_dtype():
+    """index_dtype(k) and KmerSpec(k, .).index_dtype for every k of the domain (1..32): the smallest unsigned type holding 4^k - 1."""
+    ks = KSession()
+    fn = ks.lookup('gambit.kmers', 'index_dtype')
+    bad = []
+    for k in range(1, 33):
+        o = ks.call(fn, k)
+        want = str(np.dtype(S.index_dtype_str(k)))
+        got = None if o.raised is not False else (str(np.dtype(o.ret)) if isinstance(o.ret, (np.dtype, str, type)) else repr(o.ret))
+        sp = make_spec(ks, k, 'A')
+        got2 = str(np.dtype(ks.ip.getattr(sp, 'index_dtype')))
+        if got != want or got2 != want:
+            bad.append({'k': k, 'index_dtype': got, 'KmerSpec.index_dtype': got2, 'want': want})
+    res = {'name': 'index dtype for every k in 1..32', 'queries': [{'q': 'concrete evaluation of the translated index_dtype / KmerSpec for each of the 32 values of k', 'result': 'unsat' if not bad else 'sat', 'time_s': 0.0}],
+           'bounds': {'k': '1..32 (the whole domain)'}, 'encoded': ks.encoded, 'reach': 'sat', 'sample': {'k': 16, 'dtype': 'uint32'}}
+    if bad:
+        res['status'] = VIOLATED
+        res['cex'] = {'dtype_k': bad[0]['k'], 'detail': bad[:4]}
+        res['cex_kind'] = 'assertion'
+    else:
+        res['status'] = HOLDS
+    return res
+
+
 def ob_pure(k, prefix, lens1, n2, second=None):
     """The signature is a function of (k, prefix, sequences) only: an earlier computation in the same process - finished or
     failed half-way (a str sequence with a non-ASCII character raises after the first sequence was accumulated) - leaves
@@ -214,6 +238,12 @@ def replay_pure(cex):
 def replay(cex):
     if 'first_hex' in cex:
         return replay_pure(cex)
+    if 'dtype_k' in cex:
+        import gambit.kmers as gk
+        k = cex['dtype_k']
+        got = (str(gk.index_dtype(k)), str(gk.KmerSpec(k, 'A').index_dtype))
+        want = str(np.dtype(S.index_dtype_str(k)))
+        return got != (want, want), {'how': 'real gambit.kmers.index_dtype / KmerSpec', 'k': k, 'got': got, 'want': want}
     seqs = [bytes.fromhex(h) for h in cex['seqs_hex']]
     k, prefix = cex['k'], cex['prefix']
     got, how = real_signature(k, prefix, seqs, cex['type'], cex['acc'])
@@ -275,7 +305,8 @@ def plan(tier):
                 specs.append(dict(k=k, prefix=p, lens=[n], acc=acc))
             specs.append(dict(k=k, prefix=p, lens=[3, 3], acc=acc, pytype='str'))
     # the default-accumulator switch (k > 11 -> set) and wider dtypes
-    for k, p, n in ((11, 'ATGAC', 17), (12, 'AT', 15), (5, 'AT', 8), (9, 'A', 11), (17, 'A', 19)):
+    # ... including every k at which the smallest sufficient integer type changes (4|5, 8|9, 16|17) and the largest k
+    for k, p, n in ((11, 'ATGAC', 17), (12, 'AT', 15), (5, 'AT', 8), (9, 'A', 11), (17, 'A', 19), (4, 'AT', 7), (8, 'AT', 11), (16, 'AT', 19), (32, 'A', 33)):
         specs.append(dict(k=k, prefix=p, lens=[n]))
         if tier == 'thorough':
             specs.append(dict(k=k, prefix=p, lens=[n + 1]))
@@ -295,6 +326,7 @@ def main(tier):
         return 'cvc5' if tot <= 6 else ('z3bin' if tot <= 8 else None)
     specs = [('props.C01', 'ob_sig', dict(p, second=second_for(p))) for p in plan(tier)]
     specs.sort(key=lambda s: -(sum(s[2]['lens']) * 10 + s[2]['k']))
+    specs.append(('props.C01', 'ob_dtype', {}))
     # history independence: (k, prefix) on both sides of the default-accumulator switch
     for k, p, extra in ((2, 'AT', 1), (3, 'A', 1), (12, 'A', 0)) + (((1, 'ATG', 2), (11, 'AT', 0)) if tier == 'thorough' else ()):
         n = k + len(p) + extra
@@ -304,7 +336,7 @@ def main(tier):
     for r in results:
         if r['status'] == VIOLATED:
             cex = r.get('cex') or {}
-            rep, detail = replay(cex) if 'seqs_hex' in cex else (False, {})
+            rep, detail = replay(cex) if ('seqs_hex' in cex or 'dtype_k' in cex) else (False, {})
             rec = {'obligation': r['name'], 'inputs': cex, 'cex_kind': r.get('cex_kind'), 'replay': detail, 'spec': r['spec']}
             if rep:
                 run.report_violation('calc_signature', f'{r["name"]}: {detail}', rec)
